@@ -11,6 +11,7 @@ PROPS['C04']={
    {'name':'verify_vec','module':'harness.C04','cls':'VerifyThreshold','quick':{'nk':2,'ns':3,'iter_kind':'vec'},'thorough':{'nk':3,'ns':4,'iter_kind':'vec'}},
    {'name':'verify_mapvalues','module':'harness.C04','cls':'VerifyThreshold','quick':{'nk':2,'ns':2,'iter_kind':'values'},'thorough':{'nk':3,'ns':3,'iter_kind':'values'}},
    {'name':'signatures_replayed_on_other_content','module':'harness.C04','cls':'ReplayAcrossCalls','quick':{},'thorough':{}},
+   {'name':'genuine_signature_of_every_scheme_and_length','module':'harness.C04','cls':'GenuineSignature','quick':{},'thorough':{}},
  ]}
 
 PIPE_ASSUME=['ring::signature::UnparsedPublicKey::{new,verify} replaced by the ideal-signature oracle (PublicKey::verify itself runs from MIR); MetadataWrapper::to_bytes stubbed to constant bytes (C05/C09 decide the encoding)',
@@ -130,12 +131,13 @@ PROPS['C11']={
                 {'name':'layout','module':'harness.signed','cls':'SignedBytes','quick':{'what':'layout','prop':'C11','nbytes':2},'thorough':{'what':'layout','prop':'C11','nbytes':3}},
                 {'name':'key_id_preimage','module':'harness.C12','cls':'KeyIds','quick':{},'thorough':{},'validate':{'quick':30,'thorough':30}}]}
 PROPS['C09']={
- 'bounds_statement':'decided part: (a) Metablock::new, MetablockBuilder::sign and Metablock::verify hand byte-identical strings to the sign / verify primitives for the same link or layout (free string field incl. newline, backslash, quote, controls; free numbers); (b) the signed block produced by Metablock::new, serialised (Serializer model), decoded again on the borrowed-text and tree channels (Deserializer model) and verified, hands the verify primitive exactly the bytes that were signed; together with C04 (threshold counting under the ideal-signature oracle) this gives: what the library signs verifies again after the wire trip. NOT decided here: the JSON tokenizer (serde_json text layer, compact vs pretty - exercised by the native replay only) and the behaviour of the real primitives under bit flips / cross-scheme use (ring, FFI) - these are exercised only by the native replay samples.',
+ 'bounds_statement':'decided part: (a) Metablock::new, MetablockBuilder::sign and Metablock::verify hand byte-identical strings to the sign / verify primitives for the same link or layout (free string field incl. newline, backslash, quote, controls; free numbers); (b) the signed block produced by Metablock::new, serialised (Serializer model), decoded again on the borrowed-text and tree channels (Deserializer model) and verified, hands the verify primitive exactly the bytes that were signed; (c) Metablock::verify with threshold 1 accepts a signature of every length the signer of each supported scheme can emit, made by the one authorized key over exactly these bytes (key and signature bytes free; the verifier of ring idealised); together with C04 (threshold counting under the ideal-signature oracle) this gives: what the library signs verifies again after the wire trip. NOT decided here: the JSON tokenizer (serde_json text layer, compact vs pretty - exercised by the native replay only) and the behaviour of the real primitives under bit flips / cross-scheme use (ring, FFI) - these are exercised only by the native replay samples.',
  'assumptions':SIGNED_ASSUME,
  'obligations':[{'name':'link','module':'harness.signed','cls':'SignedBytes','quick':{'what':'link','prop':'C09','nbytes':2},'thorough':{'what':'link','prop':'C09','nbytes':3}},
                 {'name':'layout','module':'harness.signed','cls':'SignedBytes','quick':{'what':'layout','prop':'C09','nbytes':1},'thorough':{'what':'layout','prop':'C09','nbytes':2}},
                 {'name':'wire_trip_link','module':'harness.signed','cls':'SignedBytes','quick':{'what':'link','prop':'C09','nbytes':1,'wire':True},'thorough':{'what':'link','prop':'C09','nbytes':2,'wire':True}},
-                {'name':'wire_trip_layout','module':'harness.signed','cls':'SignedBytes','quick':{'what':'layout','prop':'C09','nbytes':1,'wire':True},'thorough':{'what':'layout','prop':'C09','nbytes':1,'wire':True}}]}
+                {'name':'wire_trip_layout','module':'harness.signed','cls':'SignedBytes','quick':{'what':'layout','prop':'C09','nbytes':1,'wire':True},'thorough':{'what':'layout','prop':'C09','nbytes':1,'wire':True}},
+                {'name':'genuine_signature_of_every_scheme_and_length','module':'harness.C04','cls':'GenuineSignature','quick':{'prop':'C09'},'thorough':{'prop':'C09'}}]}
 
 ADV_TYPES=['rule','rule_short','step','inspection','pubkey','signature','byproducts','link','layout','metablock_link','metablock_layout','predicate_slsa1','predicate_slsa2','predicate_link','statement_link','statement_slsa1','statement_naive']
 PROPS['C14']={
